@@ -65,7 +65,8 @@ const routesJSON = `[
  {"match":[{"h_need":{"id":"mG","k":1,"pat":"G"}}], "handle":[{"handler":"h_consume","id":"c2","n":2}]},
  {"match":[{"h_need":{"id":"mP","k":1,"pat":"P"}}], "handle":[{"handler":"proxy_protocol"}]},
  {"match":[{"h_need":{"id":"mS","k":1,"pat":"\u0016"}}], "handle":[{"handler":"h_tls"}]},
- {"match":[{"h_need":{"id":"mU","k":3,"pat":"UUU"}}], "handle":[{"handler":"h_rec","id":"never","buf":7}]}
+ {"match":[{"h_need":{"id":"mU","k":3,"pat":"UUU"}}], "handle":[{"handler":"h_rec","id":"never","buf":7}]},
+ {"match":[{"h_need":{"id":"mL","k":1,"pat":"L"}}], "handle":[{"handler":"h_rec","id":"term","buf":7}]}
 ]`
 
 const ppHeader = "PROXY TCP4 198.51.100.7 203.0.113.2 1111 2222\r\n"
@@ -115,6 +116,7 @@ type result struct {
 	injected   int
 	closed     bool
 	lateAccept string
+	long       []*vnet.Conn // client ends of long-lived connections (kind L)
 	taken      map[int]bool // connections the wrapper's loop accepted from the underlying listener
 	mu         sync.Mutex
 }
@@ -234,7 +236,11 @@ func execute(x *explore.Exec, sc *Scn) *result {
 				continue
 			}
 			cl.Write(s)
-			if sc.Conns[i] != 'U' {
+			if sc.Conns[i] == 'L' {
+				// a long-lived connection: matched by a terminal route, its client keeps it open
+				// until after the listener has been closed and Accept has been probed
+				res.long = append(res.long, cl)
+			} else if sc.Conns[i] != 'U' {
 				cl.CloseWrite()
 			}
 			inners[i%len(inners)].Inject(sv)
@@ -262,6 +268,12 @@ func execute(x *explore.Exec, sc *Scn) *result {
 			c.Close()
 		}
 		_ = consumerDone
+		for _, cl := range res.long {
+			cl.CloseWrite()
+		}
+		if len(res.long) > 0 {
+			vtime.Sleep(2 * time.Second)
+		}
 		res.taken = map[int]bool{}
 		for _, in := range inners {
 			for _, c := range in.AcceptedConns {
@@ -358,7 +370,7 @@ func check(x *explore.Exec, sc *Scn, r *result) {
 			if n == 0 && !r.servers[i].Closed() {
 				x.Fail("pending-not-closed", "connection %d was neither delivered nor closed at the end; %s", i, desc())
 			}
-		case 'T':
+		case 'T', 'L':
 			if count[want] > 0 {
 				x.Fail("consumed-delivered", "connection %d was consumed by a terminal handler and also delivered; %s", i, desc())
 			}
@@ -429,7 +441,7 @@ func scenarios(tier string, yield0 func(any) bool) {
 			}
 		}
 	}
-	mixes = append(mixes, "FFF", "FTF", "FFT", "WFW", "WWF", "S", "SF", "FS", "SS", "ST", "SU", "R", "RF")
+	mixes = append(mixes, "FFF", "FTF", "FFT", "WFW", "WWF", "S", "SF", "FS", "SS", "ST", "SU", "R", "RF", "L", "LF", "FL")
 	if os.Getenv("VERIF_C13_SUBSET") == "stream" {
 		// as the listener-wrapper part of C01: what the wrapped listener's consumer reads is the
 		// client's stream from the first unconsumed byte (plain, after a consuming route, after
